@@ -279,6 +279,24 @@ func w3() uint64 {
                 viol("C05: a type nested in a type is printed so that it reads back as several arguments of the outer constructor",
                      {"proto": "c05-types", "package": tsrc, "emitted": ttext[:1500]}, "every type constructor applied to as many arguments as it has", trep[1])
         shutil.rmtree(troot, ignore_errors=True)
+        # ---- import paths are text from the source too: every component of a Require line must be a Coq identifier
+        for odd in ("1x~y", "a+b", "v2.0-rc1"):
+            ipk = {odd: {"f.go": "package xy\n\nfunc F() uint64 {\n\treturn 1\n}\n"},
+                   "p": {"p.go": "package p\n\nimport \"example.com/m/%s\"\n\nfunc G() uint64 {\n\treturn xy.F()\n}\n" % odd}}
+            iroot = os.path.join(scratch, "imp")
+            gomod.write_module(iroot, ipk)
+            irc, iout, ierr = gomod.run_goose(iroot, [], ["./p"])
+            stats["import_path_probes"] += 1
+            it = gomod.tree(os.path.join(iroot, "Goose"))
+            shutil.rmtree(iroot, ignore_errors=True)
+            if "could not load" in ierr or "patterns matched no" in ierr:
+                continue          # not an import path the Go toolchain accepts
+            for rel, (content, _, _) in it.items():
+                for line in content.decode().split("\n"):
+                    mreq = re.match(r"From \S+ Require (?:Import )?(\S+)\.$", line)
+                    if mreq and not all(re.match(r"^[A-Za-z_][A-Za-z0-9_']*$", comp) for comp in mreq.group(1).split(".")):
+                        viol("C05: an import path of the source yields a Require line that is not lexically well-formed",
+                             {"proto": "c05-import", "packages": ipk, "pattern": "./p"}, "every component of the logical path is an identifier (or the import is rejected)", line)
         # ---- logging calls where an EXPRESSION is needed (goose prints a logging call as a comment)
         lsrc = """package p
 
